@@ -137,6 +137,30 @@ func init() {
 	})
 
 	register(&PropCheck{
+		ID:      "C11",
+		PkgDirs: []string{"internal/peers"},
+		Level:   "model_checking",
+		Explanation: "Context-bounded symbolic scheduling of the real hub code: on a hub with two connected peers, one of Broadcast / BroadcastExcept / SendTo runs as a goroutine concurrently with one of remove / Add replacing the same peer id / CloseSession; the writer goroutines started by Add are threads too. Every goroutine is a symbolic thread of the interpreter; before each lock, unlock and channel operation the scheduler may preempt the running thread in favour of any runnable one, up to P preemptions per path (P = 2 quick, 3 thorough); at blocking points the first-created runnable thread continues. Violations: a Go panic in any thread (send on / close of a closed channel, nil map), a state in which every thread is blocked, and at quiescence: an uninvolved connected peer is routable, a peer that left is not, a closed session lists nobody.",
+		Rule:        "states = schedules explored (paths), transitions = SSA instructions executed; assertion sites: vAssert lines of vC11Once plus the no-panic/no-deadlock obligation per path",
+		Assumptions: []string{"the hub code is data-race free between visible operations (lock-protected map accesses are not scheduling points)", "two operations, two peers, one session; P preemptions; non-preemptive switches follow thread creation order", "timers never fire (remove waits for the writer to finish)"},
+		Bounds:      func(tier string) string { return "3 x 3 operation pairs, 2 peers, preemption bound 2 (quick) / 3 (thorough)" },
+		Jobs: func(tier string, prog *ssa.Program) []*Job {
+			j := hjp("internal/peers", "C11.hub", "H_C11_hub", "two concurrent hub operations under bounded preemption")
+			j.Threads = true
+			j.CanonicalBlock = true
+			j.TimersNeverFire = true
+			j.Preempt = 2
+			if tier == "thorough" {
+				j.Preempt = 3
+			}
+			j.Workers = 16
+			j.MaxPaths = 5000000
+			j.ReplayInstr = []SrcInsert{{File: "internal/peers/hub.go", Anchor: "h.mu.RUnlock()", Text: "\tvHubYield()", All: true}}
+			return []*Job{j}
+		},
+	})
+
+	register(&PropCheck{
 		ID:      "C12",
 		PkgDirs: []string{"internal/app"},
 		Level:   "model_checking",
